@@ -277,11 +277,13 @@ func Describe(m *mail.Msg, s *MsgSpec, cached [3]string, rb []string) string {
 		it = append(it, "A"+h(string(ah))+"="+hl(l))
 	}
 	parts := m.GetParts()
-	for i, p := range parts {
+	i := 0
+	for _, p := range parts {
 		if strings.HasPrefix(string(p.GetContentType()), "application/pkcs7-signature") || i >= len(s.Parts) {
 			continue // the S/MIME signature part of an earlier render (signMessage drops it first)
 		}
 		ps := s.Parts[i]
+		i++
 		it = append(it, fmt.Sprintf("P%s:%s:%s:%s:%s:%s", h(string(p.GetContentType())), string(p.GetEncoding()),
 			h(string(p.GetCharset())), h(p.GetDescription()), hx.HexList(ps.Prod.Chunks), b01(ps.Prod.Fail)))
 	}
